@@ -218,27 +218,34 @@ exec(_GEN_SRC, NS)
 G, H, HI, P, Q, FL, FL2, HH, Box, Crate, Swapped, Half, Deeper, Deep2, Deep2Fwd = (NS[k] for k in ('G', 'H', 'HI', 'P', 'Q', 'FL', 'FL2', 'HH', 'Box', 'Crate', 'Swapped', 'Half', 'Deeper', 'Deep2', 'Deep2Fwd'))
 
 # instantiation -> {field: kind}; kinds: 'int', 'str', 'float', 'list_int', 'list_str', 'opt_int', 'opt_str', 'dict_str'
-INST = {
-    'G_int': (G[int], {'x': 'int', 'ys': 'list_int'}),
-    'G_str': (G[str], {'x': 'str', 'ys': 'list_str'}),
-    'H_str': (H[str], {'x': 'str', 'ys': 'list_str', 'z': 'opt_str'}),
-    'H_int': (H[int], {'x': 'int', 'ys': 'list_int', 'z': 'opt_int'}),
-    'HI': (HI, {'x': 'int', 'ys': 'list_int', 'z': 'float'}),
-    'P_int_str': (P[int, str], {'a': 'int', 'b': 'str'}),
-    'P_str_int': (P[str, int], {'a': 'str', 'b': 'int'}),
-    'Q_str': (Q[str], {'a': 'int', 'b': 'str', 'c': 'opt_str'}),
-    'Q_int': (Q[int], {'a': 'int', 'b': 'int', 'c': 'opt_int'}),
-    'FL_int': (FL[int], {'x': 'int', 'ys': 'list_int'}),
-    'FL2_str': (FL2[str], {'x': 'str', 'ys': 'list_str', 'w': 'opt_str'}),
-    'HH_int': (HH[int], {'x': 'int', 'ys': 'list_int', 'z': 'opt_int', 'k': 'dict_int'}),
-    'Box_int': (Box[int], {'item': 'int'}),
-    'Swapped_int_str': (Swapped[int, str], {'a': 'int', 'b': 'str'}),
-    'Half_str': (Half[str], {'a': 'str', 'b': 'int'}),
-    'Deeper_str': (Deeper[str], {'x': 'str', 'ys': 'list_str', 'z': 'opt_str', 'm': 'opt_str'}),
+INST_SPEC = {
+    'G_int': (lambda: G[int], {'x': 'int', 'ys': 'list_int'}),
+    'G_str': (lambda: G[str], {'x': 'str', 'ys': 'list_str'}),
+    'H_str': (lambda: H[str], {'x': 'str', 'ys': 'list_str', 'z': 'opt_str'}),
+    'H_int': (lambda: H[int], {'x': 'int', 'ys': 'list_int', 'z': 'opt_int'}),
+    'HI': (lambda: HI, {'x': 'int', 'ys': 'list_int', 'z': 'float'}),
+    'P_int_str': (lambda: P[int, str], {'a': 'int', 'b': 'str'}),
+    'P_str_int': (lambda: P[str, int], {'a': 'str', 'b': 'int'}),
+    'Q_str': (lambda: Q[str], {'a': 'int', 'b': 'str', 'c': 'opt_str'}),
+    'Q_int': (lambda: Q[int], {'a': 'int', 'b': 'int', 'c': 'opt_int'}),
+    'FL_int': (lambda: FL[int], {'x': 'int', 'ys': 'list_int'}),
+    'FL2_str': (lambda: FL2[str], {'x': 'str', 'ys': 'list_str', 'w': 'opt_str'}),
+    'HH_int': (lambda: HH[int], {'x': 'int', 'ys': 'list_int', 'z': 'opt_int', 'k': 'dict_int'}),
+    'Box_int': (lambda: Box[int], {'item': 'int'}),
+    'Swapped_int_str': (lambda: Swapped[int, str], {'a': 'int', 'b': 'str'}),
+    'Half_str': (lambda: Half[str], {'a': 'str', 'b': 'int'}),
+    'Deeper_str': (lambda: Deeper[str], {'x': 'str', 'ys': 'list_str', 'z': 'opt_str', 'm': 'opt_str'}),
 }
+INST = {}
+for (_k, (_mk, _kinds)) in INST_SPEC.items():
+    try:
+        INST[_k] = (_mk(), _kinds)
+    except Exception as _e:          # subscription itself fails: reported by the obligation as "not substituted" (code 2)
+        INST[_k] = (None, _kinds)
 for (_k, (_c, _f)) in INST.items():
     try:
-        make_converter(_c)
+        if _c is not None:
+            make_converter(_c)
     except Exception:
         pass
 
@@ -306,6 +313,8 @@ def body_generic_enforced(sel: int, fsel: int, k: int, i: int, s: str, wrap: int
     """every field type has its type variables substituted (structurally) and conversion enforces the substituted type"""
     name = inst_of(sel)
     (cls, kinds) = INST[name]
+    if cls is None:
+        return 2
     fields = cls.__pane_info__.fields
     for f in fields:
         if f.name in kinds and not type_eq(f.type, EXPECT_TYPE[kinds[f.name]]):
@@ -464,16 +473,21 @@ for _w in range(3):
 
 # ------------------------------------------------------------------ a generic dataclass as the type of a field of another generic
 
-CRATE_INT = Crate[int]
-make_converter(CRATE_INT)
-DEEP2 = (Deep2[int], Deep2Fwd[int])
-for _c in DEEP2:
-    make_converter(_c)
+try:
+    CRATE_INT = Crate[int]
+    make_converter(CRATE_INT)
+    DEEP2 = (Deep2[int], Deep2Fwd[int])
+    for _c in DEEP2:
+        make_converter(_c)
+except Exception:
+    CRATE_INT = DEEP2 = None
 
 
 @obligation(pre="0 <= k <= 5 and 0 <= where <= 5", witnesses=(0, -1), timeout=120)
 def body_nested_generic(k: int, i: int, s: str, where: int) -> int:
     """Crate[int] has inner: Box[int] and many: List[Box[int]]; Deep2[int] has nested: Box[Wrap[int]]: the argument reaches the nested generic dataclasses at any depth"""
+    if CRATE_INT is None:
+        return 2
     v = lf(k, i, s)
     want = isinstance(v, int)
     cls = CRATE_INT
